@@ -124,10 +124,21 @@ def check(run):
         run.check(r[0] == 'raise', 'R11.arity', f, 'CNOT%r' % (q,), 'CNOT accepts %d qubits without raising' % len(q))
     ok, why = tables.gate_wiring(repo, f, valid)
     run.check(ok, 'R12.wiring', f, 'forward map of CNOT', why)
+    # placement in a register: named gates act through transform_by with the gate's mask (details under C03 / C09)
+    from ..rules import parallel
+    from .C03 import correction_sites
+    from . import common as K
+    tb = repo.func(K.PY_P, 'PauliList.transform_by')
+    parallel.masked_selection(run, repo, tb, {'pauli_transform'})
+    parallel.mask_expansion(run, tb)
+    correction_sites(run, repo, tb)
+    correction_sites(run, repo, repo.func(K.PY_U, 'pauli_transform'))
     run.floor('R12.textbook', 5 * 2 + 8)
     run.floor('R12.valid', 5 * 2 + 24 + 8)
     run.floor('R12.distinct', 23)
     run.floor('R11', 15 + 4 + 2 + 3)
+    run.floor('R13.masksel', 1)
+    run.floor('R6.xz', 1)
     run.decide('all 31 literal gate tables are valid Clifford maps, named gates equal the textbook action, '
                'C(0..23) are pairwise distinct, exhaust the 24-element group, closed under composition and '
                'inverse; invalid indices and wrong qubit counts raise')
